@@ -652,6 +652,9 @@ func vfC12WFlat(calls []vfC12WCall) []int {
 }
 
 func TestVF_C12_Writer(t *testing.T) {
+	// Two Ps: the harness goroutine and the writer's goroutine (run loop / timer callback / async worker) still run
+	// in parallel, while bubble hand-offs stay cheap.
+	defer runtime.GOMAXPROCS(runtime.GOMAXPROCS(2))
 	vfCheck(t, "C12", func(rt *rapid.T, c *vfCase) string {
 		cfg := vfC12WGenCfg(rt)
 		steps := vfC12WGenSteps(rt, cfg)
